@@ -8,6 +8,7 @@
                            497-575  validate_template_references
                            579-726  finalize_templates
                            764-800  add_raw_templates (insert, undo list)
+                           826-924  add_file, add_template_file, add_template_files (current tree)
                            921-958  set_fallback_prefixes, get_template_priority, resolve_template_name
                            995-1037 must_get_template, render
      tera/src/template.rs  44-141   Template::new (what a compiled template records)
@@ -588,15 +589,100 @@ Definition autoescape_on (s : state) (sufs : list name) : state :=
 (* Tera::default(): suffixes .html .htm .xml are in the caller's hands *)
 Definition init (sufs : list name) : state := {| st_sufs := sufs; st_tpls := []; st_comps := [] |}.
 
+(* ---- registration from files: add_template_file / add_template_files, tera.rs:826-924
+
+   One element of the iterator given to add_template_files, together with what the file system
+   answers for it: the path as written, the outcome of reading it, and the optional explicit
+   template name.  The three ways in which `add_file` can fail before the parser runs are kept
+   apart (they are three different `?` exits, tera.rs:832-842); all three are
+   `Error::message` / `Error::chain`, i.e. ErrorKind::Msg. *)
+Inductive fread :=
+| FBadPath                 (* path.to_str() is None: the path is not valid UTF-8 (832-834) *)
+| FNoOpen                  (* File::open fails: missing, a directory opened for reading, no permission (837-838) *)
+| FNoRead                  (* read_to_string fails: content is not UTF-8, or an I/O error (840-842) *)
+| FRead (src : source).    (* content read; `src` = what Template::new makes of it (844-849) *)
+
+Record fentry := { fe_path : name; fe_read : fread; fe_name : option name }.
+
+(* `let tpl_name = name.unwrap_or(path_str)` (835); the key is `tpl_name.to_string()` (851) *)
+Definition fe_key (f : fentry) : name :=
+  match fe_name f with Some n => n | None => fe_path f end.
+
+(* add_file, tera.rs:826-854: Ok (key, previous) and the map after the insert, or the error
+   (nothing is inserted on any of the four error exits) *)
+Definition add_file (m : tmap) (f : fentry) : rres (name * option entry) * tmap :=
+  match fe_read f with
+  | FBadPath => (Err EkMsg, m)
+  | FNoOpen => (Err EkMsg, m)
+  | FNoRead => (Err EkMsg, m)
+  | FRead None => (Err EkSyntax, m)
+  | FRead (Some t) =>
+      let key := fe_key f in
+      (Ok (key, mfind key m), minsert key (new_entry t) m)
+  end.
+
+(* the loop of add_template_files (tera.rs:903-907) with its undo log; `?` leaves the loop at
+   the first error, keeping what was inserted so far in the log *)
+Fixpoint insert_files (m : tmap) (fs : list fentry) (log : list (name * option entry))
+  : option ekind * tmap * list (name * option entry) :=
+  match fs with
+  | [] => (None, m, log)
+  | f :: fs' =>
+      match add_file m f with
+      | (Err e, _) => (Some e, m, log)
+      | (Ok kp, m') => insert_files m' fs' (log ++ [kp])
+      end
+  end.
+
+(* add_template_files, tera.rs:895-924 (add_template_file = a one-element iterator, 871-877):
+   same shape as add_raw_templates -- finalize after the loop, undo in reverse on any error *)
+Definition add_files (ev : env) (s : state) (fs : list fentry) : rres unit * state :=
+  match insert_files (st_tpls s) fs [] with
+  | (Some e, m1, log) => (Err e, with_tpls s (undo log m1))
+  | (None, m1, log) =>
+      match finalize ev (with_tpls s m1) with
+      | Ok s' => (Ok tt, s')
+      | Err e => (Err e, with_tpls s (undo log m1))
+      end
+  end.
+
+(* the raw batch a list of file entries amounts to: (key, source) of every entry up to and
+   including the first one that cannot be read or parsed (which, like a source that does not
+   parse, contributes no template and ends the loop).  RegistryProofs.add_files_as_batch:
+   add_files is add_batch on this batch, except for the kind of the error. *)
+Fixpoint files_batch (fs : list fentry) : list (name * source) :=
+  match fs with
+  | [] => []
+  | f :: fs' =>
+      match fe_read f with
+      | FRead (Some t) => (fe_key f, Some t) :: files_batch fs'
+      | _ => [(fe_key f, None)]
+      end
+  end.
+
+(* the error of the first entry that fails in the loop, if any *)
+Fixpoint files_first_err (fs : list fentry) : option ekind :=
+  match fs with
+  | [] => None
+  | f :: fs' =>
+      match fe_read f with
+      | FRead (Some _) => files_first_err fs'
+      | FRead None => Some EkSyntax
+      | _ => Some EkMsg
+      end
+  end.
+
 (* a history of calls on one instance *)
 Inductive call :=
 | CAdd (b : list (name * source))
-| CAuto (sufs : list name).
+| CAuto (sufs : list name)
+| CAddFiles (fs : list fentry).
 
 Definition step (ev : env) (s : state) (c : call) : rres unit * state :=
   match c with
   | CAdd b => add_batch ev s b
   | CAuto sufs => (Ok tt, autoescape_on s sufs)
+  | CAddFiles fs => add_files ev s fs
   end.
 
 Fixpoint run (ev : env) (s : state) (h : list call) : list (rres unit) * state :=
